@@ -2,8 +2,9 @@
 The agent sees only the property text and its own scratch worktree - nothing from /verif."""
 import json, sys
 pid = sys.argv[1]
+root = sys.argv[2] if len(sys.argv) > 2 else '/tmp/wt'
 p = [json.loads(l) for l in open('/verif/properties.jsonl') if json.loads(l)['id'] == pid][0]
-print(f"""You are helping to evaluate a verification framework by seeding a realistic bug. Work ONLY inside the scratch git worktree /tmp/wt/{pid} (a checkout of the Python library datahq/dataflows) and the output directory /tmp/wt-out/{pid}. Do not read or touch /verif or /repo. There is no network.
+print(f"""You are helping to evaluate a verification framework by seeding a realistic bug. Work ONLY inside the scratch git worktree {root}/{pid} (a checkout of the Python library datahq/dataflows) and the output directory {root}-out/{pid}. Do not read or touch /verif or /repo. There is no network.
 
 Property of the library that should always hold:
 
@@ -11,17 +12,17 @@ Property of the library that should always hold:
   Statement: {p['statement']}
   Scope: {p['quantifier']['text']}
 
-Task: produce TWO different, independent source changes (mutations) to the library code under /tmp/wt/{pid}/dataflows, each of which BREAKS this property while
+Task: produce TWO different, independent source changes (mutations) to the library code under {root}/{pid}/dataflows, each of which BREAKS this property while
   (a) the package still imports and the existing test-suite still passes exactly as before: run it with
-        cd /tmp/wt/{pid} && /venv/bin/python -m pytest -q -p no:cacheprovider --timeout=900 -x -q tests/test_lib.py tests/test_edge_cases.py tests/test_examples.py
+        cd {root}/{pid} && /venv/bin/python -m pytest -q -p no:cacheprovider --timeout=900 -x -q tests/test_lib.py tests/test_edge_cases.py tests/test_examples.py
       (on the unmodified tree 4 tests fail because they need the network: tests/test_cli.py::test_init_remote and tests/test_examples.py::test_example_3, test_example_4, test_example_5 - ignore those (drop -x if needed); every other test must still pass with your change);
   (b) the change looks like a plausible refactoring slip / optimisation / off-by-one a real contributor could make (small: 1-10 lines), not sabotage;
   (c) it needs something SPECIFIC to manifest - a particular interleaving, a crash or fault at a particular point, a multi-step sequence of operations, an unusual input/configuration, or two cooperating sites that each look fine alone - i.e. ordinary simple use would not expose it at once.
 The two mutations should touch different mechanisms (ideally different files or functions).
 
-For each mutation k in {{1,2}} write into /tmp/wt-out/{pid}/m<k>/ :
+For each mutation k in {{1,2}} write into {root}-out/{pid}/m<k>/ :
   - patch.diff : `git diff` of the change relative to HEAD (apply-able with `git apply` at the repository root),
-  - demo.py    : a small stand-alone program, run as `cd <repo root> && PYTHONPATH=<repo root> /venv/bin/python demo.py` (it must take the repository root from the current directory / PYTHONPATH, not hard-code /tmp/wt/{pid}), that exits 0 on the unmodified tree and exits non-zero (assertion failure) with the change applied, demonstrating the property violation in terms of observable behaviour (not internal identifiers),
+  - demo.py    : a small stand-alone program, run as `cd <repo root> && PYTHONPATH=<repo root> /venv/bin/python demo.py` (it must take the repository root from the current directory / PYTHONPATH, not hard-code {root}/{pid}), that exits 0 on the unmodified tree and exits non-zero (assertion failure) with the change applied, demonstrating the property violation in terms of observable behaviour (not internal identifiers),
   - meta.json  : {{"property": "{pid}", "summary": "...", "files": [...], "needs": "what specific condition is needed for it to manifest", "tests_pass": true}}.
 Verify yourself: demo passes on clean tree, fails with patch; test-suite passes with patch. Make the mutations one at a time; NEVER use `git stash` (it is shared between worktrees) - save each patch with `git diff > file` and restore with `git checkout -- .` and leave the worktree clean (git checkout -- .) at the end. Use /venv/bin/python (it has all dependencies). When a test or demo starts `parallelize` worker processes, run it under `timeout 120` so a hang cannot block you.
 
